@@ -19,7 +19,8 @@ REGISTRY = {
     ),
     "C09": dict(
         level="exploration",
-        units=[dict(pkg=APP, test="TestVerifC09", quick=1600, thorough=60000, shards_quick=16, shards_thorough=16)],
+        units=[dict(pkg=APP, test="TestVerifC09", quick=1600, thorough=60000, shards_quick=16, shards_thorough=16),
+               dict(pkg=APP, test="TestVerifC09Light", quick=480, thorough=12000, shards_quick=16, shards_thorough=16)],
     ),
     "C11": dict(
         level="exploration",
